@@ -1864,7 +1864,16 @@ def install(reg):
             return [(st, VInt(RS_START(t.arg(0), t.arg(1))))]
         raise Unsupported("start of an unknown match")
 
+    def m_pat_search(ex, st, o, a, k, n):
+        """(round 6) compiled_pattern.search(s) == re.search(pattern, s) for a pattern compiled from a constant without flags"""
+        t = o.t
+        pat = t.arg(0).as_string() if z3.is_app(t) and t.decl().name() == "re_compiled" and z3.is_string_value(t.arg(0)) else None
+        if pat is None or len(a) != 1 or k:
+            raise Unsupported(f"{ex.loc(n)} pattern.search on an unknown pattern / with a position")
+        return m_re_search(ex, st, [VStr(pat), a[0]], {}, n)
+
     reg.ext_models["re.search"] = m_re_search
+    reg.method_models[("RePattern", "search")] = m_pat_search
     reg.method_models[("SMatch", "group")] = m_sm_group
     reg.method_models[("SMatch", "start")] = m_sm_start
 
